@@ -208,9 +208,7 @@ pub fn code_container(push_state: &mut PushState, _instruction_cache: &Instructi
 /// first CODE stack item anywhere (e.g. in a sub-list).
 pub fn code_contains(push_state: &mut PushState, _instruction_cache: &InstructionCache) {
     if let Some(ov) = push_state.code_stack.copy_vec(2) {
-        let first_el = ov[1].to_string();
-        let code_str = ov[0].to_string();
-        if first_el.contains(&code_str) {
+        if Item::contains(&ov[1], &ov[0], 0).is_ok() {
             push_state.bool_stack.push(true);
         } else {
             push_state.bool_stack.push(false);
@@ -461,9 +459,7 @@ pub fn code_list(push_state: &mut PushState, _instruction_cache: &InstructionCac
 /// first CODE stack item anywhere (e.g. in a sub-list).
 pub fn code_member(push_state: &mut PushState, _instruction_cache: &InstructionCache) {
     if let Some(ov) = push_state.code_stack.copy_vec(2) {
-        let top_el = ov[1].to_string();
-        let sec_el = ov[0].to_string();
-        if sec_el.contains(&top_el) {
+        if Item::contains(&ov[0], &ov[1], 0).is_ok() {
             push_state.bool_stack.push(true);
         } else {
             push_state.bool_stack.push(false);
